@@ -192,3 +192,16 @@ def angle_reject(V):
         V.reach("start>end rejected")
         return
     V.fail("start>end accepted")
+
+_U = "commonroad.common.util:"
+MUTANTS = [
+    dict(name="contains-open-right", target=_U + "Interval.contains", old="self.start <= other <= self.end", new="self.start <= other < self.end"),
+    dict(name="contains-interval-end", target=_U + "Interval.contains", old="other.end <= self.end", new="other.start <= self.end"),
+    dict(name="overlaps-strict", target=_U + "Interval.overlaps", old="self.end >= interval.start", new="self.end > interval.start"),
+    dict(name="intersection-max", target=_U + "Interval.intersection", old="max(self._start, other._start)", new="min(self._start, other._start)"),
+    dict(name="div-negative-not-swapped", target=_U + "Interval.__truediv__", old="return type(self)(self._end / other, self._start / other)", new="return type(self)(self._start / -other, self._end / -other)"),
+    dict(name="angle-contains-open", target=_U + "AngleInterval.__contains__", old="<= self.length", new="< self.length"),
+    dict(name="angle-contains-no-wrap", target=_U + "AngleInterval.__contains__", old="(value - self.start) % TWO_PI", new="(value - self.start)"),
+    dict(name="angle-subinterval-endpoints-only", target=_U + "AngleInterval.contains", old="start_diff + other.length <= self.length", new="start_diff <= self.length and (other.end - self.start) % TWO_PI <= self.length"),
+    dict(name="valid-interval-loop", target=_U + "make_valid_orientation_interval", old="while angle_start > TWO_PI or angle_end > TWO_PI:", new="while angle_start > TWO_PI:"),
+]
